@@ -64,6 +64,10 @@ stone = 14 * pound
 REGKW = {"system": "tm"}
 
 OPS = ["enA", "enAp", "enB", "enC", "enX", "enY", "enBX", "dis1", "disAll", "withB", "exit", "raiseC", "def"]
+# the decorator form of a with-block (ureg.with_context): a call that returns and a call that raises.
+# Complete enumeration uses them up to length 3 (quick) / 4 (thorough); the deepest level of the thorough
+# tier keeps the 13 core operations (15**5 does not fit the budget)
+DEC_OPS = ["decC", "decRaiseB"]
 
 
 def exhaustive(tier):
@@ -72,7 +76,7 @@ def exhaustive(tier):
 
 def required(tier):
     return {"sequences": 5000, "failed_activations": 1500, "distinct_model_stacks": 20,
-            "twin_comparisons": 5000, "context_fingerprints": 1000}
+            "twin_comparisons": 5000, "context_fingerprints": 1000, "decorated_calls": 500}
 
 
 def shards(tier, seed):
@@ -236,6 +240,30 @@ class Machine:
                 self.trouble = ("valid-activation-raised", ("with C",), type(e).__name__)
                 if self.stack and self.stack[-1] == ("C", {"p": F(3)}):
                     del self.stack[-1:]
+        elif op in ("decC", "decRaiseB"):
+            # model: whatever happens inside, the stack afterwards is the stack before
+            name, kw = ("C", {"p": F(3)}) if op == "decC" else ("B", {})
+            seen = []
+
+            def body():
+                seen.append([c.name for c in u._active_ctx.contexts])
+                if op == "decRaiseB":
+                    raise KeyError("boom")
+                return 5
+            self.rec.count("decorated_calls")
+            try:
+                out = u.with_context(name, **kw)(body)()
+                if op == "decRaiseB":
+                    self.trouble = ("decorated-call-swallowed-the-exception", name)
+                elif out != 5:
+                    self.trouble = ("decorated-call-lost-the-result", repr(out))
+            except KeyError:
+                if op != "decRaiseB":
+                    self.trouble = ("decorated-call-raised", "KeyError")
+            except Exception as e:  # noqa: BLE001
+                self.trouble = ("decorated-call-raised", type(e).__name__)
+            if not seen or name not in seen[0]:
+                self.trouble = ("context-not-active-inside-decorated-call", name)
         elif op == "def":
             name = f"nu{len(self.defs)}"
             line = f"{name} = {len(self.defs) + 2} * foot"
@@ -323,7 +351,8 @@ def run_shard(spec, rec):
     if spec["kind"] == "bfs":
         k = 0
         for L in range(1, spec["length"] + 1):
-            for seq in itertools.product(OPS, repeat=L):
+            alphabet = OPS + DEC_OPS if L <= 4 else OPS
+            for seq in itertools.product(alphabet, repeat=L):
                 k += 1
                 if k % spec["parts"] != spec["part"]:
                     continue
@@ -332,7 +361,7 @@ def run_shard(spec, rec):
     elif spec["kind"] == "random":
         for i in range(spec["n"]):
             L = spec.get("fixed_length") or rng.randint(6, 40)
-            seq = tuple(rng.choice(OPS) for _ in range(L))
+            seq = tuple(rng.choice(OPS + DEC_OPS) for _ in range(L))
             run_sequence(seq, pint, rec)
             if i == 0:
                 rec.sample({"random_sequence": list(seq)})
